@@ -78,6 +78,8 @@ def check(tier, seed):
         C.audit_sources()
         C.props_obligations(res, 'C18', wd)
         C.tie_b_kernels(res, wd, ('ck', 'ubx', 'nmea'))
+        BK.install_stub_serial()
+        C.tie_b_scan(res, wd)
         rng = C.rng_for(seed, 'C18')
         cases = []
         ties = 0
